@@ -33,6 +33,7 @@ func stOf(t *Task) Status {
 
 //@ func (*State).writing
 //@   assigns State.modified
+//@   ensures s.modified
 
 //@ func (*Task).Status
 //@   props C02 C01
@@ -106,7 +107,8 @@ func stOf(t *Task) Status {
 //@   ensures result == t.state.changes[t.change]
 
 //@ func (*Task).changeStatus
-//@   props C01
+//@   props C01 C04
+//@   requires [marked] t.state.modified
 //@   ensures old != new ==> t.status == new
 //@   ensures old == new ==> t.status == old(t.status)
 //@   ensures forall x *Task :: x != t ==> x.status == old(x.status)
@@ -146,7 +148,9 @@ func stOf(t *Task) Status {
 //@   ensures result == blockedBy(recv, arg0, arg1)
 
 //@ func (*TaskRunner).Ensure
-//@   props C02 C07 C03
+//@   props C02 C07 C03 C04
+//@   guard call run: [not-finished] !stOf(arg1).Ready()
+//@   guard call run: [runnable] stOf(arg1) != WaitStatus && stOf(arg1) != AbortStatus
 //@   guard call run: !mustWaitSpec(arg1)
 //@   guard call run: arg1.atTime.IsZero() || !ensureTime.Before(arg1.atTime)
 //@   guard call run: forall j int :: 0 <= j && j < len(r.blocked) ==> !blockedBy(r.blocked[j], arg1, running)
